@@ -151,8 +151,10 @@ def replay_decode(T, K, nonid=False):
                 sub = ndi.affine_transform(temps[j], mtx, order=3, mode="constant", cval=0.0)
                 res = model.align(sub, (1, 1, 1))
                 ok_rot = np.allclose(res.quat, quats[k], atol=1e-6) or np.allclose(res.quat, -quats[k], atol=1e-6)
-                if not ok_rot or (res.label % max(T, 1) if K > 1 else res.label) != j or (nonid and float(res.score) < 0.9):
-                    wrong.append({"template": j, "rotation": k, "label": int(res.label), "quat_ok": bool(ok_rot), "score": float(res.score)})
+                # the sub-volume is the template turned about the box centre and not displaced: the reported shift is (close to) zero
+                off = float(np.abs(np.asarray(res.shift, dtype=float)).max())
+                if not ok_rot or (res.label % max(T, 1) if K > 1 else res.label) != j or (nonid and float(res.score) < 0.9) or off > 0.3:
+                    wrong.append({"template": j, "rotation": k, "label": int(res.label), "quat_ok": bool(ok_rot), "score": float(res.score), "shift": np.asarray(res.shift, dtype=float).round(3).tolist()})
         return len(wrong) > 0, {"T": T, "K": K, "wrong": wrong[:6], "n_wrong": len(wrong), "of": T * K}
 
     return run
